@@ -7,10 +7,12 @@
     kSD   SkipDecoder: `New` leaves `rn` as found in the pool; `Next` starts with `p.rn = 0`
     kRSD  ReaderSkipDecoder: `Reset(r)` leaves the BUFFER as found in the pool, and growing takes
           dirty memory from the shared pool; by `rsdNext_spec` neither ever shows
+    kDW, kBW  DefaultWriter / BufferWriter: in Lemmas/PoolsWriter (refine the append-only log)
   and `Good` is closed under `Kind.sum` (systems with instances of several types).
 -/
 import Verif.Lemmas.Pools
 import Verif.Lemmas.PoolsRsd
+import Verif.Lemmas.PoolsWriter
 namespace Verif.Pools
 open Verif
 
@@ -156,5 +158,21 @@ def Good.sum {K1 K2 : Kind} (G1 : Good K1) (G2 : Good K2) : Good (Kind.sum K1 K2
     cases s <;> cases x <;> first | exact h.elim | skip
     · exact G1.release_fresh _ _ h
     · exact G2.release_fresh _ _ h
+
+end Verif.Pools
+
+namespace Verif.Pools
+open Verif
+
+/-- a system with instances of all the reading kinds at once: DefaultReader, BufferReader,
+    SkipDecoder, BytesSkipDecoder, ReaderSkipDecoder -/
+def Readers : Kind := Kind.sum kDR (Kind.sum kBR (Kind.sum kSD (Kind.sum kBSD kRSD)))
+
+def goodReaders : Good Readers := goodDR.sum (goodBR.sum (goodSD.sum (goodBSD.sum goodRSD)))
+
+/-- … and of every kind: the five reading kinds, DefaultWriter and BufferWriter -/
+def All : Kind := Kind.sum Readers (Kind.sum kDW kBW)
+
+def goodAll : Good All := goodReaders.sum (goodDW.sum goodBW)
 
 end Verif.Pools
